@@ -14,6 +14,13 @@ def bind():
     return _b
 
 
+def keytext(k):
+    try:
+        return k.decode("utf-8")
+    except UnicodeDecodeError:
+        return str(k)
+
+
 def match(m, r, quirks, path, out, stream_data=None):
     """Append (path, kind, detail, known-sig or None) for every mismatch of real r against model m.
 
@@ -63,7 +70,9 @@ def match(m, r, quirks, path, out, stream_data=None):
             for i, (x, y) in enumerate(zip(m, r)):
                 match(x, y, quirks, path + "[%d]" % i, out, stream_data)
     elif isinstance(m, dict):
-        want = {k.decode("utf-8"): v for k, v in m.items() if v is not None}
+        # keys are reported as text: UTF-8 decoded, or - pdfminer's convention for names that are not UTF-8 - as the
+        # repr of the bytes ("b'\\xe9'"); either way distinct names stay distinct keys
+        want = {keytext(k): v for k, v in m.items() if v is not None}
         if type(r) is not dict or set(r) != set(want):
             out.append((path, "dict", "expected keys %r, got %r" % (sorted(want), r), None))
         else:
